@@ -7,6 +7,7 @@ import operator
 import numpy as np
 from ..core import CTX, attempt, held, violated, undefined, same_array, peek, short, lists_same
 from .. import gen, contracts
+from . import c02
 
 PROP = "C04"
 LEVEL_TEXT = 'Every event is judged against numpy applied to the flat buffer with np.repeat column broadcasting, exactly incl. result dtype and signs of zeros; 11 unary + 23 binary ufuncs, 121 dtype pairs, 11 operand kinds, both sides, operator and ufunc spelling. Exploration.'
@@ -36,7 +37,7 @@ OPS = {"add": operator.add, "subtract": operator.sub, "multiply": operator.mul, 
        "left_shift": operator.lshift, "right_shift": operator.rshift,
        "negative": operator.neg, "positive": operator.pos, "absolute": abs, "invert": operator.invert}
 KINDS = ["unary", "ra", "npscalar", "pyscalar", "0d", "col", "collist", "bad_total", "bad_same_total", "bad_rows", "bad_onerow"]
-FLOOR_TAGS = ["k:" + k for k in KINDS] + ["side:L", "side:R", "spelling:operator", "spelling:ufunc", "kind:b", "kind:i", "kind:u", "kind:f",
+FLOOR_TAGS = ["recv:" + r for r in c02.RECVS] + ["k:" + k for k in KINDS] + ["side:L", "side:R", "spelling:operator", "spelling:ufunc", "kind:b", "kind:i", "kind:u", "kind:f",
                                            "v:small", "v:extreme", "v:nonfinite", "norows", "allempty", "e-first", "e-last", "e-mid", "e-consec", "e-none", "onerow-col"]
 FLOOR_MONITORS = ["c04:compare", "c04:must-refuse", "c04:operands-unchanged"]
 N_RANDOM = {"quick": 42000, "thorough": 600000}
@@ -47,9 +48,9 @@ def setup(lib):
     contracts.attach(lib, which=("ragged",))
 
 
-def mk_case(lens, dtype, vals, uf, kind="unary", side="R", other=None, dtype2=None, op=False, vclass="small"):
+def mk_case(lens, dtype, vals, uf, kind="unary", side="R", other=None, dtype2=None, op=False, vclass="small", recv="fresh"):
     return {"lens": list(lens), "dtype": np.dtype(dtype).name, "vals": vals, "uf": uf, "kind": kind, "side": side,
-            "other": other, "dtype2": None if dtype2 is None else np.dtype(dtype2).name, "op": bool(op), "vclass": vclass}
+            "other": other, "dtype2": None if dtype2 is None else np.dtype(dtype2).name, "op": bool(op), "vclass": vclass, "recv": recv}
 
 
 def run(case):
@@ -64,7 +65,9 @@ def run(case):
     tags = ["k:" + kind, "uf:" + case["uf"], "kind:" + dt.kind, "v:" + case["vclass"], "spelling:" + ("operator" if use_op else "ufunc")] + gen.empty_placement(lens)
     if kind != "unary":
         tags.append("side:" + side)
-    ra = RA(flat.copy(), list(lens))
+    recv = case.get("recv", "fresh")
+    ra, _parent = c02.build_receiver(recv, flat, lens)       # fresh, unmaterialised selection, or the direct result of a ufunc / astype
+    tags.append("recv:" + recv)
     rowidx = np.repeat(np.arange(n), lens)
     other = ob = None
     other_before = None
@@ -77,7 +80,7 @@ def run(case):
         ov = case["other"]
         if kind == "ra":
             ob = np.array(ov, dtype=dt2)
-            other = RA(ob.copy(), list(lens))
+            other = c02.build_receiver(case.get("recv2", "fresh"), ob, lens)[0]
         elif kind in ("bad_total", "bad_same_total", "bad_rows", "bad_onerow"):
             blens = ov["lens"]
             ob = np.array(ov["vals"], dtype=dt2)
@@ -264,6 +267,16 @@ def directed():
                           [float("-inf"), -0.0, 7.25, 1.0, 0.0][:len(lens)], dtype2, True, "nonfinite")
         yield mk_case(lens, "bool", _vals(rng, "bool", sum(lens), "small"), "logical_xor", "col", "R", [True, False, True, True][:len(lens)], "bool")
         yield mk_case(lens, "int64", _vals(rng, "int64", sum(lens), "small"), "add", "col", "R", [10, 20, 30, 40][:len(lens)], "int64")
+    # hostile float columns and mismatching partners on receivers that are selections / results of other operations
+    for recv in c02.RECVS[1:]:
+        for lens_ in ([2, 1, 3], [1, 2, 2, 1]):
+            tot_ = sum(lens_)
+            yield mk_case(lens_, "float64", [0.5 * k for k in range(tot_)], "add", "col", "R", [0.1, float("nan"), 1e17, 0.7][:len(lens_)], "float64", False, "nonfinite", recv)
+            yield mk_case(lens_, "int64", list(range(tot_)), "subtract", "col", "L", [0.9, 1e16, 1.0, float("inf")][:len(lens_)], "float64", True, "nonfinite", recv)
+            yield mk_case(lens_, "int64", list(range(tot_)), "multiply", "collist", "R", [0.5, 1.5, 2.0, 0.25][:len(lens_)], None, False, "small", recv)
+            bl = lens_[1:] + lens_[:1]
+            yield mk_case(lens_, "int64", list(range(tot_)), "add", "bad_same_total", "R", {"lens": bl, "vals": list(range(tot_))}, "int64", False, "small", recv)
+            yield mk_case(lens_, "int64", list(range(tot_)), "less", "bad_same_total", "L", {"lens": bl, "vals": list(range(tot_))}, "int64", True, "small", recv)
     # columns of signed zeros with sign-sensitive ufuncs; one-row ragged operands that would broadcast
     for uf in ["true_divide", "copysign", "multiply", "maximum"]:
         for col in ([0.0, -0.0, -0.0], [-0.0, 0.0, 0.0], [-0.0, -0.0, 0.0]):
@@ -289,7 +302,12 @@ def random_case(rng, tier):
     lens, _ = gen.length_vector(rng, tier)
     dtype = rng.choice(gen.DT_ALL)
     vclass = rng.choice(["small", "small", "extreme", "nonfinite"])
-    return gen_case(rng, lens, dtype, vclass)
+    c = gen_case(rng, lens, dtype, vclass)
+    if rng.random() < 0.35:
+        c["recv"] = rng.choice(c02.RECVS[1:])
+    if c["kind"] == "ra" and rng.random() < 0.3:
+        c["recv2"] = rng.choice(c02.RECVS[1:])
+    return c
 
 
 def classify(case, res):
